@@ -140,9 +140,37 @@ pub fn is_name(s: &[u8]) -> bool {
 }
 
 // ---------------------------------------------------------------- symbolic strings
-/// A symbolic ASCII string of length <= N whose bytes come from `alphabet` (or any ASCII
-/// byte when `alphabet` is empty), built without heap growth loops.
-pub fn any_ascii<const N: usize>(alphabet: &[u8]) -> String {
+pub fn ascii(b: u8) -> bool {
+    b < 0x80
+}
+/// A symbolic string slice of length <= N living in a caller-provided fixed buffer (no heap):
+/// every byte satisfies `pred` (which must imply ASCII).
+pub fn any_str_in<const N: usize>(buf: &mut [u8; N], pred: fn(u8) -> bool) -> &str {
+    let len: usize = kani::any();
+    kani::assume(len <= N);
+    let mut i = 0;
+    while i < N {
+        let b: u8 = kani::any();
+        kani::assume(pred(b) && b < 0x80);
+        buf[i] = b;
+        i += 1;
+    }
+    // SAFETY: all bytes < 0x80
+    unsafe { core::str::from_utf8_unchecked(&buf[..len]) }
+}
+/// Same, length exactly N.
+pub fn any_str_exact<const N: usize>(buf: &mut [u8; N], pred: fn(u8) -> bool) -> &str {
+    let mut i = 0;
+    while i < N {
+        let b: u8 = kani::any();
+        kani::assume(pred(b) && b < 0x80);
+        buf[i] = b;
+        i += 1;
+    }
+    unsafe { core::str::from_utf8_unchecked(&buf[..]) }
+}
+/// A symbolic heap String of length <= N whose bytes satisfy `pred` (which must imply ASCII).
+pub fn any_string<const N: usize>(pred: fn(u8) -> bool) -> String {
     let len: usize = kani::any();
     kani::assume(len <= N);
     let mut v: Vec<u8> = Vec::with_capacity(N);
@@ -150,21 +178,22 @@ pub fn any_ascii<const N: usize>(alphabet: &[u8]) -> String {
     while i < N {
         if i < len {
             let b: u8 = kani::any();
-            if alphabet.is_empty() {
-                kani::assume(b < 0x80);
-            } else {
-                let mut ok = false;
-                let mut k = 0;
-                while k < alphabet.len() {
-                    if alphabet[k] == b {
-                        ok = true;
-                    }
-                    k += 1;
-                }
-                kani::assume(ok);
-            }
+            kani::assume(pred(b) && b < 0x80);
             v.push(b);
         }
+        i += 1;
+    }
+    // SAFETY: all bytes < 0x80
+    unsafe { String::from_utf8_unchecked(v) }
+}
+/// A symbolic ASCII heap String of length exactly N.
+pub fn any_ascii_exact<const N: usize>() -> String {
+    let mut v: Vec<u8> = Vec::with_capacity(N);
+    let mut i = 0;
+    while i < N {
+        let b: u8 = kani::any();
+        kani::assume(b < 0x80);
+        v.push(b);
         i += 1;
     }
     // SAFETY: all bytes < 0x80
